@@ -585,9 +585,9 @@ func scenarios(r *vlib.Run) []scenario {
 		{"corpus:expire-evict", scExpireEvict, false},
 		{"corpus:rejects", scRejects, false},
 	}
-	nr := r.N(10, 120)
+	nr := r.N(10, 60)
 	for i := 0; i < nr; i++ {
-		l = append(l, scenario{fmt.Sprintf("random:%d", i), scRandom(r.N(60, 110), i%5 == 4), i%4 == 3})
+		l = append(l, scenario{fmt.Sprintf("random:%d", i), scRandom(r.N(60, 100), i%5 == 4), i%4 == 3})
 	}
 	return l
 }
